@@ -9,6 +9,7 @@ import TypedpyModel.Spec.WfDecl
 import TypedpyModel.Sem.Entry
 import TypedpyModel.Sem.Decimal
 import TypedpyModel.Sem.EntryD
+import TypedpyModel.Spec.NestedHooks
 namespace Typedpy.Drive.Construct
 open Lean (Json)
 open Typedpy Typedpy.Wire
@@ -85,6 +86,7 @@ def decsOfJson (j : Json) : Except String (List (String × DecPos)) :=
       let a ← t.getArr?
       let pos ← match ← a[1]!.getStr? with
         | "bare" => pure DecPos.bare | "items" => pure DecPos.items | "values" => pure DecPos.values
+        | "optional" => pure DecPos.optional
         | s => throw s!"dec position {s}"
       pure ((← a[0]!.getStr?), pos)
 
@@ -130,6 +132,24 @@ def runDecimal (j : Json) (O : Oracles) (cls : FieldDecl) (kw : List (String × 
       pure [("implWellFormed", Json.bool (wellFormed O cls v))]
   pure (Json.mkObj (base ++ extra))
 
+/-- hooks of the nested classes of a case: "hooksByClass": [[class, [[field, value], …]], …] - the hook of `class`
+    raises when `field` is set and `==` to `value` (the same predicate the harness installs on the real classes) -/
+def hooksByClass (j : Json) : Except String (Option Hooks) :=
+  match optField j "hooksByClass" with
+  | none => pure none
+  | some x => do
+    let tbl : List (String × List (String × PyVal)) ← (← x.getArr?).toList.mapM fun t => do
+      let a ← t.getArr?
+      let hs ← (← a[1]!.getArr?).toList.mapM fun h => do
+        let b ← h.getArr?
+        pure ((← b[0]!.getStr?), (← valOfJson b[1]!))
+      pure ((← a[0]!.getStr?), hs)
+    pure (some fun cls attrs => match tbl.find? (fun t => t.1 == cls) with
+      | none => true
+      | some t => t.2.all fun h => match lookup h.1 attrs with
+        | some v => !PyVal.pyEq v h.2
+        | none => true)
+
 def run (j : Json) : Except String Json := do
   let O ← oraclesOfJson j
   let cls ← declOfJson (← j.getObjVal? "cls")
@@ -157,7 +177,10 @@ def run (j : Json) : Except String Json := do
     | none => pure []
     | some x => do
       let v ← valOfJson x
-      pure [("implWellFormed", Json.bool (wellFormed O cls v))]
+      let nested ← match ← hooksByClass j with
+        | none => pure []
+        | some H => pure [("implNestedHooksOk", Json.bool (allInstAttrs H (instAttrs v)))]
+      pure ([("implWellFormed", Json.bool (wellFormed O cls v))] ++ nested)
   pure (Json.mkObj (base ++ extra))
 
 end Typedpy.Drive.Construct
